@@ -159,21 +159,21 @@ theorem elabDesign_hierA (m : WModA) (Ms : List WAnyA) (defs : List Def) (n : Na
 
 /-- non-vacuity: `top` (an assign between two of its nets, a two-bit assign) instantiates the work module `sub` (declared
     afterwards; it has an assign of its own of the same width, so the assignment definition is found in the table) and the
-    primitive `LUT1` -/
+    primitive `LUT1`; both work modules have parameters in their headers -/
 def exHierTopA : WModA :=
   ⟨⟨"top", [],
    [⟨"a", .inp, some (1, 0), []⟩, ⟨"y", .out, none, []⟩],
    [⟨"w", "wire", none, []⟩, ⟨"v", "wire", some (1, 0), []⟩, ⟨"y", "wire", none, []⟩, ⟨"a", "wire", some (1, 0), []⟩],
    [⟨"u0", "sub", [], [], [("p", .atom (.id "a")), ("q", .atom (.id "w"))]⟩,
     ⟨"u1", "LUT1", [], [], [("I0", .atom (.id "w")), ("O", .atom (.id "y"))]⟩]⟩,
-   [(.id "v", .id "a"), (.bit "v" 0, .id "w")]⟩
+   [(.id "v", .id "a"), (.bit "v" 0, .id "w")], [("W", "2")]⟩
 
 def exHierMsA : List WAnyA :=
   [.work ⟨⟨"sub", [("keep", none)],
      [⟨"p", .inp, some (1, 0), []⟩, ⟨"q", .out, none, [("mark", none)]⟩],
      [⟨"r", "wire", none, []⟩, ⟨"q", "wire", none, []⟩, ⟨"p", "wire", some (1, 0), []⟩],
      [⟨"g0", "LUT1", [], [], [("I0", .atom (.bit "p" 0)), ("O", .atom (.id "r"))]⟩]⟩,
-     [(.id "q", .id "r")]⟩,
+     [(.id "q", .id "r")], [("DEPTH", "4'h3"), ("MODE", "\"fast\"")]⟩,
    .leaf ⟨"LUT1", [⟨"I0", .inp, none, []⟩, ⟨"O", .out, none, []⟩]⟩]
 
 theorem exHierA_builds : (buildHierA exHierTopA exHierMsA).isSome = true := by decide
